@@ -12,7 +12,7 @@ ID = "C09"
 LEAN_MODULES = ["EzdxfVerif.Props.C09"]
 DRIVER_DEPS = ["EzdxfVerif.Model.Encoding", "EzdxfVerif.Model.EncodingExt", "EzdxfVerif.Gen.EncodingTables",
                "EzdxfVerif.Gen.CjkTables", "Drivers.Proto"]
-SRCS = ["src/ezdxf/lldxf/encoding.py", "src/ezdxf/tools/codepage.py", "src/ezdxf/lldxf/const.py"]
+SRCS = ["src/ezdxf/lldxf/encoding.py", "src/ezdxf/tools/codepage.py", "src/ezdxf/lldxf/const.py", "src/ezdxf/document.py"]
 UNDEF = 0xFFFFFF
 
 
@@ -311,6 +311,39 @@ LINE_END_SITES = [
 ]
 
 
+def extract_writer_rules(ctx) -> dict:
+    """shape of the writer's decision logic in document.py (Drawing._update_metadata, output_encoding, save, write, update_all)"""
+    import ast
+
+    from ezdxf.lldxf import const
+
+    tree = ast.parse(ctx.src("src/ezdxf/document.py"))
+    cls = next(n for n in tree.body if isinstance(n, ast.ClassDef) and n.name == "Drawing")
+    fn = {n.name: n for n in cls.body if isinstance(n, ast.FunctionDef)}
+
+    def is_cp_assign(st):
+        return (isinstance(st, (ast.Assign, ast.AugAssign, ast.AnnAssign)) and any(
+            ast.unparse(t) == "self.header['$DWGCODEPAGE']" for t in (st.targets if isinstance(st, ast.Assign) else [st.target])))
+
+    um = fn["_update_metadata"]
+    top = [st for st in um.body if is_cp_assign(st)]
+    anywhere = [st for st in ast.walk(um) if is_cp_assign(st)]
+    # nothing after an early return / inside a branch: the assignment is reached on every call
+    early_exit = any(isinstance(n, (ast.Return, ast.Raise)) for st in um.body for n in ast.walk(st))
+    rules = {}
+    rules["cpUnconditional"] = len(top) == 1 and len(anywhere) == 1 and not early_exit
+    rules["cpFromEncoding"] = bool(anywhere) and all(
+        isinstance(st, ast.Assign) and ast.unparse(st.value) == "tocodepage(self.encoding)" for st in anywhere)
+    rets = [n for n in ast.walk(fn["output_encoding"]) if isinstance(n, ast.Return)]
+    rules["outputEncoding"] = (len(rets) == 1 and ast.unparse(rets[0].value) == "'utf-8' if self.dxfversion >= DXF2007 else self.encoding"
+                               and const.DXF2007 == "AC1021")
+    save, write = ast.unparse(fn["save"]), ast.unparse(fn["write"])
+    rules["saveUsesOutputEncoding"] = ("enc = self.output_encoding" in save and "encoding=enc, errors='dxfreplace'" in save
+                                       and "encoding=self.output_encoding" in write)
+    rules["metadataOnWrite"] = "self.update_all()" in write and "self._update_metadata()" in ast.unparse(fn["update_all"])
+    return rules
+
+
 def regenerate(ctx):
     for s in SRCS:
         ctx.src(s)
@@ -320,7 +353,8 @@ def regenerate(ctx):
                              "conversion no longer describes the source")
     _GEN_CACHE.clear()
     d = gen_data()
-    out = ["import EzdxfVerif.Model.Encoding", "", "namespace EzdxfVerif.Gen.EncodingTables", "open EzdxfVerif.Encoding", ""]
+    out = ["import EzdxfVerif.Model.Encoding", "import EzdxfVerif.Model.EncodingExt", "", "namespace EzdxfVerif.Gen.EncodingTables",
+           "open EzdxfVerif.Encoding", ""]
     out.append("/-- `dxf_backslash_replace` evaluated on every code point 0..0x10FFFF, run-length compressed -/")
     out.append("def handlerFmt : Fmt :=\n  [" + ",\n   ".join(f"⟨{lo}, {hi}, {lean_repl(k)}⟩" for lo, hi, k in d["fmt"]) + "]")
     out.append("")
@@ -355,6 +389,10 @@ def regenerate(ctx):
     out.append("")
     out.append("/-- `MIF_CODE_PAGE` resolved through `codecs.lookup`: (page digit, canonical codec name; empty = LookupError) -/")
     out.append("def mifCodePage : List (Nat × Str) :=\n  [" + ", ".join(f"({k}, {lstr(v)})" for k, v in d["mif_pages"]) + "]")
+    wr = extract_writer_rules(ctx)
+    out.append("/-- the writer's decision logic as found in the AST of document.py (see `WriterRules`) -/")
+    out.append("def writerRules : WriterRules :=\n  { " + ", ".join(f"{k} := {'true' if v else 'false'}" for k, v in wr.items()) + " }")
+    ctx.note(f"writer rules extracted from document.py: {wr}")
     out.append("/-- the DXF versions ezdxf knows (`const.acad_release`) and Python's own `version >= const.DXF2007` -/")
     out.append("def acadVersions : List (Str × Bool) :=\n  [" + ", ".join(
         f"({lstr(v)}, {'true' if u else 'false'})" for v, u in d["versions"]) + "]")
@@ -393,14 +431,19 @@ RULE = (
     "recover.detect_encoding and the Binary DXF scan_params for every DXF version x $DWGCODEPAGE spelling (prefixes, case, "
     "white space, near misses, random); X8 decode_mif_to_unicode / re.split(MIF_ENCODED) / the complete recover string branch "
     "on MIF escapes of defined and undefined byte pairs of every page, quirk shapes and random atoms; X9 io.TextIOWrapper("
-    "errors='dxfreplace') with one write per piece, and the byte level LF<->CRLF conversions. non-trivial = reaches the handler / a match / a non-default table "
+    "errors='dxfreplace') with one write per piece, and the byte level LF<->CRLF conversions; X10 the writer: document states "
+    "(new / loaded, version, doc.encoding, header before) built on real documents -> $ACADVER, $DWGCODEPAGE and codec of the bytes "
+    "of the saved file, and BinaryTagWriter.write_str on preformatted strings with U+2028/U+2029/NEL/VT/FF/FS..RS/CR in the "
+    "values. non-trivial = reaches the handler / a match / a non-default table "
     "branch; distinct by hash of the request line. oracle: real Drawing.saveas -> ezdxf.readfile / recover.readfile round "
     "trips of TEXT, MTEXT, layer / block / text style names, INSERT references, ATTRIB tag and text, XDATA strings and header "
     "variables for R12/R2000/R2004 x 14 code pages and R2007+ "
     "x {ASCII, binary}, including double-byte characters whose trail byte is `\\ ^ % { |` followed by the text that would "
     "complete an escape at the byte level, values with white space at the ends and of up to 1300 characters; every ASCII file also "
     "through iterdxf.modelspace / single_pass_modelspace / opendxf, ezdxf.readzip and encode_base64 -> decode_base64; the same "
-    "files with $DWGCODEPAGE re-spelled (O4)."
+    "files with $DWGCODEPAGE re-spelled (O4); O5 histories over LOADED documents (five loaders, code page and version changed "
+    "after loading, both directions across R2007); string header variables and custom properties with U+2028/U+2029 in every "
+    "document; O6 r12export (doc.encoding changed after new()) and r12writer (ASCII, binary)."
 )
 TRUSTED_BASE = [
     "CPython codecs: every codec enters the theorems through tables regenerated on every run - the 10 single-byte decoding "
@@ -416,6 +459,8 @@ TRUSTED_BASE = [
     "writers issue one write per tag)",
     "bytes.replace for the LF<->CRLF conversions of encode_base64 / decode_base64 / ZipReader (hand model lfToCrlf / crlfToLf; source "
     "expressions pinned by regenerate, corresponded with bytes.replace)",
+    "the AST extraction of the writer's decision logic (extract_writer_rules: normalised ast.unparse texts of _update_metadata, "
+    "output_encoding, save, write, update_all) - a rewrite with the same behaviour but another shape re-opens the theorem",
     "the tag loaders (line / NUL splitting, group codes) are C03/C08's models; C09 proves that splitting commutes with decoding "
     "(strict_reader_lines, byte_split_readers) and exercises the real loaders in the oracle",
     "the driver evaluates the double-byte codecs through hash maps built first-entry-wins from the table lists (the model's "
@@ -426,6 +471,8 @@ ASSUMPTIONS = [
     "(ezdxf's one-line-text fixer strips a trailing caret from TEXT on load: not an encoding matter); leading/trailing white "
     "space (blank, NBSP, U+3000, en/em spaces, ZWSP, BOM) IS included since session 3",
     "recover.readfile does not read Binary DXF (not a supported combination in ezdxf)",
+    "the writer theorems need doc.encoding to be one of the 14 supported code pages (is_supported_encoding); any other codec "
+    "name in doc.encoding is written under ANSI_1252 (tocodepage's default) - user error, not generated",
     "$DWGCODEPAGE spellings: any prefix + a table key (proved, toencoding_any_prefix); the Binary DXF scanner additionally needs "
     "five or more characters, and six or more if the name does not start with 'A' in an R12 file (binScan_spec) - shorter names "
     "such as a bare '874' fall back to cp1252 there (modelled + corresponded, not a supported spelling)",
@@ -895,6 +942,97 @@ def detection_cases(ctx):
             yield ver, cp
 
 
+# ---------------------------------------------------------------------- the writer's side
+def writer_states(ctx):
+    d = gen_data()
+    rng = ctx.rng("writer")
+    from ezdxf.lldxf import const
+
+    vers = [v for v, _ in d["versions"] if v in const.versions_supported_by_new]
+    for enc in d["codecs"]:
+        for k in range(ctx.n(4, 14)):
+            loaded = k % 4 != 0
+            yield dict(loaded=loaded, ver=vers[(k + len(enc)) % len(vers)], enc=enc,
+                       oldver=rng.choice(vers), oldenc=rng.choice(d["codecs"]),
+                       oldcp="ANSI_" + dict(d["enc2cp"])[rng.choice(d["codecs"])] if not loaded else "", text=sample_text(rng, enc))
+
+
+def impl_written(ctx, st) -> str:
+    """build the state on a real document, save it, read $ACADVER / $DWGCODEPAGE from the file and find the codec of the bytes"""
+    import ezdxf
+    from ezdxf.lldxf.encoding import encode
+    from ezdxf.tools import codepage
+
+    path = str(ctx.scratch / f"wr_{os.getpid()}.dxf")
+    try:
+        if st["loaded"]:
+            doc = ezdxf.new(st["oldver"])
+            doc.encoding = st["oldenc"]
+            doc.saveas(path)
+            doc = ezdxf.readfile(path)
+            st["oldcp"] = doc.header["$DWGCODEPAGE"]
+            if doc.dxfversion != st["ver"]:
+                doc.dxfversion = st["ver"]
+        else:
+            doc = ezdxf.new(st["ver"])
+            doc.header["$DWGCODEPAGE"] = st["oldcp"]
+        doc.encoding = st["enc"]
+        doc.modelspace().add_text(st["text"])
+        doc.saveas(path)
+        raw = open(path, "rb").read()
+    except Exception as e:  # noqa
+        return "err " + exc_name(e)
+    finally:
+        try:
+            os.unlink(path)
+        except OSError:
+            pass
+
+    def var(name: bytes) -> str:
+        i = raw.index(name + b"\n")
+        return raw[i:].split(b"\n")[2].decode("ascii").strip()
+
+    lines = raw.split(b"\n")
+    hits = [c for c in ["utf8", st["enc"]] + gen_data()["codecs"] if encode(st["text"], c) in lines]
+    benc = hits[0] if hits else "none"
+    return f"{cps(var(b'$ACADVER'))};{cps(var(b'$DWGCODEPAGE'))};{cps(benc)}"
+
+
+def write_str_strings(ctx):
+    rng = ctx.rng("writestr")
+    seps = ["\u2028", "\u2029", "\x85", "\x0b", "\x0c", "\x1c", "\x1d", "\x1e", "\r", " ", "Ω", "x"]
+    for _ in range(ctx.n(300, 3000)):
+        tags = []
+        for _ in range(rng.randint(0, 4)):
+            code = rng.choice(["  9", "  1", "1", "  3", "1000", " 40", "999"])
+            val = "".join(rng.choice(seps + ["a", "$MENU", "b"]) for _ in range(rng.randint(0, 5)))
+            tags.append(code + "\n" + val + "\n")
+        t = "".join(tags)
+        k = rng.random()
+        if k < 0.1:
+            t = t[:-1]  # no trailing line end
+        elif k < 0.2:
+            t += "  0"  # odd number of lines: the last one is dropped
+        yield t
+
+
+def impl_write_str(t: str) -> str:
+    import io
+    from ezdxf.lldxf.tagwriter import BinaryTagWriter
+
+    rec = []
+
+    class Rec(BinaryTagWriter):
+        def write_tag2(self, code, value):
+            rec.append((code, value))
+
+    try:
+        Rec(io.BytesIO(), encoding="utf8").write_str(t)
+    except Exception as e:  # noqa
+        return "err " + exc_name(e)
+    return ";".join(f"{cps(str(c))}:{cps(v)}" for c, v in rec)
+
+
 def correspond(ctx):
     from ezdxf.tools import codepage
 
@@ -1059,6 +1197,17 @@ def correspond(ctx):
         cases.append((f"lf2crlf|{nat_list(b)}", nat_list(b.replace(b"\n", b"\r\n")), True))
         cases.append((f"crlf2lf|{nat_list(b)}", nat_list(b.replace(b"\r\n", b"\n")), True))
     ctx.correspond("X9 text io", "C09", cases)
+
+    # ---- X10 the writer: (loaded?, version, doc.encoding, header before) -> ($ACADVER, $DWGCODEPAGE, encoding of the bytes) of
+    # the saved file, on real documents; BinaryTagWriter.write_str line pairing
+    cases = []
+    for st in writer_states(ctx):
+        ctx.hist("X10 writer", "loaded" if st["loaded"] else "new")
+        cases.append((f"written|{1 if st['loaded'] else 0}|{cps(st['ver'])}|{cps(st['enc'])}|{cps(st['oldcp'])}", impl_written(ctx, st), True))
+    for t in write_str_strings(ctx):
+        ctx.hist("X10 writer", "write_str")
+        cases.append((f"writestr|{cps(t)}", impl_write_str(t), any(c in t for c in "\u2028\u2029\x85\x0b\x0c\x1c\x1d\x1e\r")))
+    ctx.correspond("X10 writer", "C09", cases)
 
     # ---- X8 MIF: decode_mif_to_unicode, re.split(MIF_ENCODED), the complete string branch of the recover loader
     cases = []
@@ -1333,6 +1482,32 @@ def layer_name(i: int, s: str):
     return f"L{i}_{s}"
 
 
+def with_separator(s: str, sep: str, k: int) -> str:
+    """`s` with U+2028 / U+2029 (category Zl / Zp: BMP, no control characters, no line ends of DXF streams - but
+    str.splitlines() splits there) at the start, in the middle or at the end"""
+    i = (0, len(s) // 2, len(s))[k % 3]
+    return s[:i] + sep + s[i:]
+
+
+def header_extra(pl: Place):
+    """string header variables and custom properties: in Binary DXF they reach the file through BinaryTagWriter.write_str
+    (preformatted "code\\nvalue\\n" strings), unlike entity attributes"""
+    if not pl.strings:
+        return []
+    base = [t for t in pl.strings[:6] if not t.endswith("^")] or ["x"]
+    names = []
+    if pl.version != "R12":
+        names += ["$HYPERLINKBASE"]
+    if pl.version not in ("R12", "R2000"):  # $PROJECTNAME, $LASTSAVEDBY and custom properties are written from R2004 on (C04)
+        names += ["$PROJECTNAME", "$LASTSAVEDBY", "Prop A", "Prop B", "Prop C"]
+    out = []
+    for k, name in enumerate(names):
+        v = with_separator(base[k % len(base)], "\u2028\u2029"[k % 2], k)
+        if not has_literal_escape(v):
+            out.append((name, v))
+    return out
+
+
 def write_doc(pl: Place, path: str):
     import ezdxf
 
@@ -1364,6 +1539,11 @@ def write_doc(pl: Place, path: str):
     if pl.strings:
         doc.header["$MENU"] = pl.strings[0]
         doc.header["$DIMPOST"] = pl.strings[-1]
+    for name, val in header_extra(pl):
+        if name.startswith("$"):
+            doc.header[name] = val
+        else:
+            doc.header.custom_vars.append(name, val)
     doc.saveas(path, fmt=pl.fmt)
 
 
@@ -1415,6 +1595,8 @@ def read_doc(pl: Place, path: str):
         "ATTRIB": [(a.dxf.tag, a.dxf.text) for e in msp.query("INSERT") for a in e.attribs],
         "STYLE": [st.dxf.name for st in doc.styles if st.dxf.name.startswith("S")],
         "HEADER": [doc.header["$MENU"], doc.header["$DIMPOST"]],
+        "HEADER+": {**{n: doc.header.get(n) for n, _ in header_extra(pl) if n.startswith("$")},
+                    **{t: v for t, v in doc.header.custom_vars.properties}},
         "encoding": doc.encoding,
         "output_encoding": doc.output_encoding,
     }
@@ -1545,6 +1727,13 @@ def check_place(ctx, tally: Tally, pl: Place, depth=0):
             compare(where, s, raw)
     compare("HEADER", pl.strings[0], got["HEADER"][0])
     compare("HEADER", pl.strings[-1], got["HEADER"][1])
+    for name, val in header_extra(pl):
+        raw = got["HEADER+"].get(name)
+        if raw is None:
+            tally.fail(f"file-layer/header-missing/{pl.ident()}/{name}", f"{name} = {val!r} missing after load",
+                       {**rep, "strings": pl.strings[:6], "where": "HEADER/" + name})
+        else:
+            compare("HEADER/" + name, val, raw)
     # named objects: the raw names must be consistent (INSERT -> BLOCK) and decode to what was stored
     want_named = [(i, s) for i, s in enumerate(pl.strings[:NAMED]) if layer_name(i, s) is not None]
     for where, prefix in (("BLOCK", "B"), ("INSERT", "B"), ("STYLE", "S")):
@@ -1710,6 +1899,167 @@ def oracle_spellings(ctx, tally):
             check_spelling(ctx, tally, enc, version, fmt, [pre + key for pre in SPELLING_PREFIXES], texts)
 
 
+HISTORY_VERSIONS = [("R2000", "R2000"), ("R12", "R12"), ("R2004", "R2000"), ("R2010", "R2004"), ("R2000", "R2013"), ("R2018", "R2000"),
+                    ("R2004", "R2004"), ("R2013", "R2018")]
+HISTORY_LOADERS = ["readfile", "recover", "override", "readzip", "base64"]
+
+
+ALL_LOSSY = None
+
+
+def sample_text(ctx_rng, enc: str, n: int = 5) -> str:
+    """encodable + one unencodable character; none of the best-fit characters of ANY code page (known finding F15): in a
+    history the text is written again under another code page"""
+    global ALL_LOSSY
+    d = gen_data()
+    if ALL_LOSSY is None:
+        ALL_LOSSY = set().union(*(lossy_chars(c) for c in d["codecs"]))
+    t = d["tables"][enc]
+    good = [x for x in t if is_plain_char(x) and x >= 0x80 and x not in ALL_LOSSY]
+    bad = [x for x in range(0xA0, 0x3000) if is_plain_char(x) and x not in t and x not in ALL_LOSSY]
+    return "h" + "".join(chr(ctx_rng.choice(good)) for _ in range(n)) + chr(ctx_rng.choice(bad)) + "e"
+
+
+def run_history(ctx, tally, h: dict):
+    """new(v1, e1) + text -> save -> LOAD -> doc.encoding = e2 (or readfile(encoding=e2)) -> more text -> dxfversion = v2 ->
+    saveas(fmt) -> every reader: all texts come back and the readers agree with the writer about the encoding"""
+    import ezdxf
+    from ezdxf import recover
+    from ezdxf.lldxf.encoding import decode_dxf_unicode
+
+    v1, v2, e1, e2, loader, fmt, t1, t2 = (h[k] for k in ("v1", "v2", "e1", "e2", "loader", "fmt", "t1", "t2"))
+    ident = f"{loader}/{v1}:{e1}->{v2}:{e2}/{fmt}"
+    rep = {"op": "history", **h}
+    p1 = str(ctx.scratch / f"h1_{os.getpid()}.dxf")
+    p2 = str(ctx.scratch / f"h2_{os.getpid()}.dxf")
+    try:
+        doc = ezdxf.new(v1)
+        doc.encoding = e1
+        doc.modelspace().add_text(t1)
+        doc.saveas(p1)
+        if loader == "readfile":
+            doc = ezdxf.readfile(p1)
+        elif loader == "recover":
+            doc, _ = recover.readfile(p1)
+        elif loader == "override":
+            # the documented override: decode the file with e1 (what it is), the argument is stored as document encoding
+            doc = ezdxf.readfile(p1, encoding=e1 if v1 in LEGACY_VERSIONS else "utf-8")
+        elif loader == "readzip":
+            import zipfile
+
+            with zipfile.ZipFile(p1 + ".zip", "w") as zf:
+                zf.write(p1, "doc.dxf")
+            doc = ezdxf.readzip(p1 + ".zip")
+            os.unlink(p1 + ".zip")
+        else:
+            doc = ezdxf.decode_base64(doc.encode_base64())
+        doc.encoding = e2
+        doc.modelspace().add_text(t2)
+        if v2 != v1:
+            doc.dxfversion = v2
+        doc.saveas(p2, fmt=fmt)
+    except Exception as e:  # noqa
+        tally.fail(f"history/crash/{ident}/{type(e).__name__}", f"history {ident} raised {type(e).__name__}: {e}", rep)
+        return
+    # the text loaded from the first file: the strict readers hand out the escaped form, it is written as it is
+    want = [t1, t2]
+    readers = [("strict", lambda: ezdxf.readfile(p2))]
+    if fmt == "asc":
+        readers.append(("recover", lambda: recover.readfile(p2)[0]))
+    for rname, rd in readers:
+        ctx.count("O5 histories", (ident, rname), True)
+        try:
+            back = rd()
+            got = [e.dxf.text if rname == "recover" else decode_dxf_unicode(e.dxf.text) for e in back.modelspace().query("TEXT")]
+            got = [decode_dxf_unicode(g) for g in got]  # t1 may have been loaded by a strict reader (escapes kept)
+            benc = back.encoding
+        except Exception as e:  # noqa
+            got, benc = f"{type(e).__name__}: {e}", None
+        if got != want:
+            tally.fail(f"history/text/{ident}/{rname}", f"history {ident}, {rname} reader: {want!r} read back as {got!r}", rep)
+        elif benc != e2:
+            tally.fail(f"history/encoding/{ident}/{rname}", f"history {ident}, {rname} reader: document encoding {benc}, saved with {e2}", rep)
+    for q in (p1, p2):
+        try:
+            os.unlink(q)
+        except OSError:
+            pass
+
+
+def oracle_histories(ctx, tally):
+    d = gen_data()
+    rng = ctx.rng("hist")
+    k = 0
+    for e2 in d["codecs"]:
+        for rnd in range(ctx.n(6, 40)):
+            v1, v2 = HISTORY_VERSIONS[k % len(HISTORY_VERSIONS)]
+            loader = HISTORY_LOADERS[(k // 3) % len(HISTORY_LOADERS)]
+            fmt = "bin" if k % 4 == 3 else "asc"
+            k += 1
+            e1 = rng.choice([c for c in d["codecs"] if c != e2])
+            run_history(ctx, tally, dict(v1=v1, v2=v2, e1=e1, e2=e2, loader=loader, fmt=fmt,
+                                         t1=sample_text(rng, e1), t2=sample_text(rng, e2)))
+
+
+def run_other_writer(ctx, tally, w: dict):
+    """r12export (any document -> R12 file in doc.encoding) and r12writer (cp1252, ASCII or binary)"""
+    import ezdxf
+    from ezdxf import recover
+    from ezdxf.lldxf.encoding import decode_dxf_unicode
+
+    path = str(ctx.scratch / f"ow_{os.getpid()}.dxf")
+    ident = f"{w['writer']}/{w.get('version', 'R12')}/{w['enc']}/{w['fmt']}"
+    rep = {"op": "writer", **w}
+    try:
+        if w["writer"] == "r12export":
+            from ezdxf.addons import r12export
+
+            doc = ezdxf.new(w["version"])
+            doc.encoding = w["enc"]  # changed after new(), never saved through Drawing.save
+            for t in w["strings"]:
+                doc.modelspace().add_text(t)
+            r12export.saveas(doc, path)
+        else:
+            from ezdxf.addons.r12writer import r12writer
+
+            with r12writer(path, fmt=w["fmt"]) as dxf:
+                for t in w["strings"]:
+                    dxf.add_text(t)
+    except Exception as e:  # noqa
+        tally.fail(f"writer/crash/{ident}/{type(e).__name__}", f"{ident} raised {type(e).__name__}: {e}", rep)
+        return
+    readers = [("strict", lambda: ezdxf.readfile(path))]
+    if w["fmt"] == "asc":
+        readers.append(("recover", lambda: recover.readfile(path)[0]))
+    for rname, rd in readers:
+        ctx.count("O6 other writers", (ident, rname, tuple(w["strings"])), True)
+        try:
+            got = [e.dxf.text if rname == "recover" else decode_dxf_unicode(e.dxf.text) for e in rd().modelspace().query("TEXT")]
+        except Exception as e:  # noqa
+            got = f"{type(e).__name__}: {e}"
+        if got != w["strings"]:
+            tally.fail(f"writer/text/{ident}/{rname}", f"{ident}, {rname} reader: {w['strings']!r} read back as {got!r}", rep)
+    try:
+        os.unlink(path)
+    except OSError:
+        pass
+
+
+def oracle_other_writers(ctx, tally):
+    d = gen_data()
+    rng = ctx.rng("writers")
+    for i, enc in enumerate(d["codecs"]):
+        strings = [sample_text(rng, enc), with_separator(sample_text(rng, enc, 3), "\u2028", i), "plain"]
+        run_other_writer(ctx, tally, dict(writer="r12export", version=["R2000", "R2018", "R12", "R2004"][i % 4], enc=enc, fmt="asc", strings=strings))
+    lat = [x for x in d["tables"]["cp1252"] if is_plain_char(x) and x >= 0xA0]
+    for i in range(ctx.n(6, 40)):
+        enc_only = ["w" + "".join(chr(rng.choice(lat)) for _ in range(4)), with_separator("abc", "\u2028\u2029"[i % 2], i)]
+        # ASCII r12writer opens the file as cp1252 without error handler: only cp1252 text (U+2028 is not: binary only)
+        run_other_writer(ctx, tally, dict(writer="r12writer", enc="cp1252", fmt="asc", strings=enc_only[:1] + ["plain"]))
+        run_other_writer(ctx, tally, dict(writer="r12writer", enc="cp1252", fmt="bin",
+                                          strings=enc_only + [sample_text(rng, "cp1252"), with_separator("Ωx", "\u2029", i)]))
+
+
 def oracle(ctx):
 
     d = gen_data()
@@ -1730,6 +2080,9 @@ def oracle(ctx):
             check_function(tally, enc, t)
     # O4: the same file with $DWGCODEPAGE in another spelling (lower case, DOS prefix, bare number) is read the same way
     oracle_spellings(ctx, tally)
+    # O5: histories over LOADED documents (change of code page / version after loading); O6: the other writers
+    oracle_histories(ctx, tally)
+    oracle_other_writers(ctx, tally)
     # O1: real files
     ndocs = 0
     for pl in oracle_places(ctx):
@@ -1771,6 +2124,10 @@ def replay(ctx, rep):
         elif r["op"] == "function":
             for s in r["strings"]:
                 check_function(tally, r["enc"], s)
+        elif r["op"] == "history":
+            run_history(tally.ctx, tally, {k: v for k, v in r.items() if k != "op"})
+        elif r["op"] == "writer":
+            run_other_writer(tally.ctx, tally, {k: v for k, v in r.items() if k != "op"})
         elif r["op"] == "spelling":
             check_spelling(tally.ctx, tally, r["enc"], r["version"], r["fmt"], [r["spelling"]], r["strings"])
         elif r["op"] == "codepage":
